@@ -257,7 +257,9 @@ def reversible_fdtd(
         s_k, r_k = sr_tuple
         del r_k
         time_step = s_k[0]
-        return time_step >= start_time_step
+        # ``body_fn`` maps the state at ``time_step`` to ``time_step - 1`` and back-propagates through that
+        # forward step, so the last iteration must start at ``start_time_step + 1`` (as in ``full_backward``).
+        return time_step > start_time_step
 
     def fdtd_bwd(
         residual,
